@@ -453,6 +453,24 @@ def _classify_reflective_arg(proj, f: Optional[FuncInfo], call: ast.Call):
     if f is None:
         return ('open', src(a))
     fl = get_flow(proj, f)
+    # closed by a constant collection: `if NAME in <literal / class-level constant collection>` dominates the call, or NAME is looked up in a
+    # constant dict (TABLE[x] / TABLE.get(x)); every member must be a public identifier
+    from ._tables import const_collection, table_of
+
+    def public(names) -> bool:
+        return bool(names) and all(isinstance(x, str) and x.isidentifier() and not x.startswith('_') for x in names)
+    if isinstance(a, ast.Name):
+        for atom, truth in fl.cfg.guard_atoms(fl.stmt_of(call)):
+            if truth and isinstance(atom, ast.Compare) and len(atom.ops) == 1 and isinstance(atom.ops[0], ast.In) and isinstance(atom.left, ast.Name) and atom.left.id == a.id:
+                members = const_collection(atom.comparators[0], f.module, f.cls)
+                if members is not None:
+                    return ('guarded', f'{a.id} in {src(atom.comparators[0])}') if public(members) else ('open', f'{src(atom.comparators[0])} contains a non-public name')
+        defs_ = [fl.cfg.stmt[d] for d in fl.cfg.defs_reaching(fl.stmt_of(call), a.id) if d != 'param']
+        if defs_ and len(defs_) == len(fl.cfg.defs_reaching(fl.stmt_of(call), a.id)) and all(isinstance(s_, ast.Assign) for s_ in defs_):
+            tabs = [table_of(s_.value, f.module, f.cls) for s_ in defs_]
+            if all(t_ is not None for t_ in tabs):
+                vals = [v for t_ in tabs for v in t_[0].values()]
+                return ('guarded', 'looked up in a constant table') if public(vals) else ('open', 'table contains a non-public name')
     exprs = [a]
     if isinstance(a, ast.Name):
         exprs = []
@@ -679,6 +697,10 @@ def r5_closed_callee(ctx: Ctx) -> None:
                 elif isinstance(f, ast.Call):
                     # getattr(self, method)(node) dispatch is R3's; anything else calls a computed value
                     ok = isinstance(f.func, ast.Name) and f.func.id == 'getattr' and isinstance(f.args[0], ast.Name) and f.args[0].id == 'self'
+                    if not ok and isinstance(f.func, ast.Name) and f.func.id == 'getattr' and len(f.args) >= 2 and src(f.args[0]) in ('self.ctx', 'ctx'):
+                        members = _closed_members(proj, get_flow(proj, m), f)
+                        ctxc = proj.cls(f'{EP}.ExpressionContext' if cname == 'ExpressionEvaluator' else f'{EP}.TransactionContext')
+                        ok = members is not None and all(x.startswith('get_') and x in ctxc.methods for x in members)
                     ctx.check(ok, 'C03.R5', m, f'call:{src(f)[:30]}', 'dispatch getattr(self, "_eval_…")(node)',
                               f'calls a computed callee {src(f)[:60]!r}', n)
                 elif isinstance(f, (ast.Subscript, ast.IfExp, ast.BoolOp, ast.Lambda)):
@@ -714,6 +736,33 @@ def r6_not_values(ctx: Ctx) -> None:
                           f'return {src(r.value)[:60]!r} can yield {bad}: functions/methods/types must not become expression values', r)
 
 
+def _closed_members(proj, fl: Flow, call: ast.Call):
+    """members of the constant collection / table that closes the name argument of getattr(obj, NAME[, default]); None if it is not closed"""
+    from ._tables import const_collection, table_of
+    a = call.args[1]
+    f = fl.fi
+    if not isinstance(a, ast.Name):
+        return None
+    try:
+        st = fl.stmt_of(call)
+    except Exception:
+        return None
+    for atom, truth in fl.cfg.guard_atoms(st):
+        if truth and isinstance(atom, ast.Compare) and len(atom.ops) == 1 and isinstance(atom.ops[0], ast.In) and isinstance(atom.left, ast.Name) and atom.left.id == a.id:
+            members = const_collection(atom.comparators[0], f.module, f.cls)
+            if members is not None and all(isinstance(x, str) for x in members):
+                return list(members)
+    ds = fl.cfg.defs_reaching(st, a.id)
+    defs_ = [fl.cfg.stmt[d] for d in ds if d != 'param']
+    if defs_ and len(defs_) == len(ds) and all(isinstance(s_, ast.Assign) for s_ in defs_):
+        tabs = [table_of(s_.value, f.module, f.cls) for s_ in defs_]
+        if all(t_ is not None for t_ in tabs):
+            vals = [v for t_ in tabs for v in t_[0].values()]
+            if all(isinstance(v, str) for v in vals):
+                return vals
+    return None
+
+
 def _function_valued(proj, fl: Flow, e, at, fn_like) -> List[str]:
     bad = []
     seen_exprs = [e]
@@ -746,6 +795,15 @@ def _function_valued(proj, fl: Flow, e, at, fn_like) -> List[str]:
                 if n.func.id == 'getattr' and len(n.args) >= 2 and isinstance(n.args[1], ast.Constant) and isinstance(n.args[1].value, str) \
                         and n.args[1].value not in fn_like and not n.args[1].value.startswith('_'):
                     continue
+                if n.func.id == 'getattr' and len(n.args) >= 2:
+                    members = _closed_members(proj, fl, n)
+                    if members is not None:
+                        p_ = parent(n)
+                        called = isinstance(p_, ast.Call) and p_.func is n and not p_.args and not p_.keywords
+                        if called and all(m_ in fn_like and m_.startswith('get_') for m_ in members):
+                            continue        # a getter of the context chosen from a constant table and called at once: its result is data
+                        if not called and all(m_ not in fn_like and not m_.startswith('_') for m_ in members):
+                            continue        # a data slot of the context chosen from a constant collection
                 bad.append(f'reflective call {src(n)[:40]}')
             if isinstance(n, ast.Lambda):
                 bad.append('lambda')
